@@ -4,6 +4,7 @@ interning order."""
 from __future__ import annotations
 
 import ast
+import re
 
 from ..core import AnalysisError, norm, walk_no_nested, calls_in, call_name, last_attr, parent, dotted_name
 from ..cfg import CFG, guard_conditions
@@ -72,6 +73,22 @@ RECEIVERS = {
 }
 
 
+_TARGET_RE = re.compile(r"\bfor (\(?[A-Za-z_][\w, ()]*?\)?) in ")
+
+
+def _canon_site(text):
+    """site text with its loop / comprehension variables alpha-renamed (textual, works on truncated texts)"""
+    names = []
+    for m in _TARGET_RE.finditer(text):
+        for nm in re.findall(r"[A-Za-z_]\w*", m.group(1)):
+            if nm not in names:
+                names.append(nm)
+    out = text
+    for i, nm in enumerate(names):
+        out = re.sub(r"(?<![\w.])%s\b" % re.escape(nm), "_v%d" % i, out)
+    return out
+
+
 def _armed(rel):
     return rel.startswith(ARMED_PREFIXES) and not rel.startswith(UNARMED)
 
@@ -101,6 +118,18 @@ def f12_set_order(ctx, repo, scope=None, rule="F12"):
                 for (r2, f2, pre), why in SET_AUDIT_PREFIX.items():
                     if r2 == key[0] and f2 == key[1] and text.startswith(pre):
                         reason = why
+            if reason is None:
+                # the same construct after a behaviour-preserving edit: loop / comprehension variables renamed, or the
+                # statement moved into another function of the module (extract method)
+                ct = _canon_site(text)
+                for (r2, f2, t2), why in SET_AUDIT.items():
+                    if r2 == rel and _canon_site(t2) == ct:
+                        reason = why
+                        break
+                if reason is None:
+                    for (r2, f2, pre), why in SET_AUDIT_PREFIX.items():
+                        if r2 == rel and ct.startswith(_canon_site(pre)):
+                            reason = why
             ctx.ob(rule, f.where, text, reason is not None, ("audited: " + reason) if reason else "unordered iteration reaches an order-sensitive consumer (list/str building, numbering, dict population, first-element pick)")
     ctx.info.setdefault("set_sites", {})[rule] = {"total": n_total, "sensitive": n_sens, "unarmed_reported": unarmed[:50]}
 
@@ -419,9 +448,24 @@ def lazy_independence(ctx, repo):
     tf = repo.mod("ttLib/ttFont.py")
     g = tf.func("TTFont.getTableData")
     rets = [n for n in walk_no_nested(g.node) if isinstance(n, ast.Return)]
-    shape = sorted((norm(r.value), tuple(norm(t) + ("" if pol else "!") for t, pol in guard_conditions(r))) for r in rets)
-    want = sorted([("self.tables[tag].compile(self)", ("self.isLoaded(tag)",)), ("self.reader[tag]", ("self.reader and tag in self.reader", "self.isLoaded(tag)!"))])
-    ctx.ob("LAZY", g.where, f"returns {shape}", shape == want, "" if shape == want else "pass-through no longer returns reader bytes unchanged / compiles unloaded tables")
+    gc = CFG(g.node)
+    from ..cfg import implied_conditions
+    from ..core import inline_locals
+
+    shape = []
+    ok = bool(rets)
+    for r in rets:
+        val = norm(inline_locals(g.node, r.value)) if r.value is not None else "None"
+        conds = implied_conditions(gc, r)
+        shape.append((val, sorted(c for c in conds if "isLoaded" in c[0])))
+        if val == "self.tables[tag].compile(self)":
+            ok = ok and ("self.isLoaded(tag)", True) in conds
+        elif val == "self.reader[tag]":
+            ok = ok and ("self.isLoaded(tag)", False) in conds
+        else:
+            ok = False
+    ok = ok and {v for v, _ in shape} == {"self.tables[tag].compile(self)", "self.reader[tag]"}
+    ctx.ob("LAZY", g.where, f"returns {sorted(shape)}", ok, "" if ok else "pass-through no longer returns reader bytes unchanged / compiles unloaded tables")
     ed = tf.func("TTFont.ensureDecompiled")
     gcfg = CFG(ed.node)
     sets = [n for n in walk_no_nested(ed.node) if isinstance(n, ast.Assign) and norm(n.targets[0]) == "self.lazy"]
